@@ -8,6 +8,12 @@ From MJ Require Import Common.Base Lang.Syntax Lang.Meta C18.Tracker C18.NMeta.
 Definition nvisit_list (l : list expr) (t : nstate) : nstate := fold_left (fun t e => nvisit e t) l t.
 Definition nvisit_kw {K} (l : list (K * expr)) (t : nstate) : nstate := fold_left (fun t p => nvisit (snd p) t) l t.
 
+Definition nvisit_pairs (l : list (expr * expr)) (t : nstate) : nstate :=
+  fold_left (fun t p => nvisit (snd p) (nvisit (fst p) t)) l t.
+Lemma nvisit_pairs_fix (l : list (expr * expr)) : forall t,
+  (fix go (l : list (expr * expr)) (t : nstate) := match l with [] => t | (k, v) :: r => go r (nvisit v (nvisit k t)) end) l t = nvisit_pairs l t.
+Proof. induction l as [|[k v] l IH]; intros t; [reflexivity|]. unfold nvisit_pairs. cbn [fold_left fst snd]. apply IH. Qed.
+
 Lemma nvisit_list_fix l : forall t,
   (fix go (l : list expr) (t : nstate) := match l with [] => t | x :: r => go r (nvisit x t) end) l t = nvisit_list l t.
 Proof. induction l; intros t; cbn; auto. Qed.
@@ -23,6 +29,7 @@ Lemma nvisit_eq e t : nvisit e t =
   | EConst _ => t
   | EVar x => n_lookup x t
   | EList items => nvisit_list items t
+  | EMap pairs => nvisit_pairs pairs t
   | ENeg a | ENot a => nvisit a t
   | EBin _ a b | EAnd a b | EOr a b => nvisit b (nvisit a t)
   | ECmp a rest => nvisit_kw rest (nvisit a t)
@@ -37,7 +44,7 @@ Lemma nvisit_eq e t : nvisit e t =
   | ECall f args kwargs => nvisit_kw kwargs (nvisit_list args (n_lookup f t))
   end.
 Proof.
-  destruct e; cbn [nvisit]; auto; try apply nvisit_list_fix; try apply nvisit_cmp_fix.
+  destruct e; cbn [nvisit]; auto; try apply nvisit_list_fix; try apply nvisit_cmp_fix; try apply nvisit_pairs_fix.
   rewrite nvisit_list_fix. apply nvisit_kw_fix.
 Qed.
 
@@ -59,8 +66,8 @@ Fixpoint nwalk_arms (els : option (list stmt)) (arms : list (expr * list stmt)) 
 
 Definition nvisit_macro (dc : bool) (params : list name) (defaults : list (name * expr)) (body : list stmt) (t : nstate) : nstate :=
   nwalk_list body (nvisit_params params defaults (if dc then n_assign N_caller t else t)).
-Definition nvisit_binds (binds : list (name * expr)) (t : nstate) : nstate :=
-  fold_left (fun t b => n_assign (fst b) (nvisit (snd b) t)) binds t.
+Definition nvisit_binds (binds : list (target * expr)) (t : nstate) : nstate :=
+  fold_left (fun t b => n_assign_target (fst b) (nvisit (snd b) t)) binds t.
 
 Lemma nwalk_eq st t : nwalk st t =
   match st with
@@ -74,7 +81,7 @@ Lemma nwalk_eq st t : nwalk st t =
       let t := n_assign N_loop t in
       let t := n_pop (nwalk_list body t) in
       n_pop (match els with Some b => nwalk_list b (n_push t) | None => n_push t end)
-  | SSet x e => n_assign x (nvisit e t)
+  | SSet tg e => n_assign_target tg (nvisit e t)
   | SSetBlock x body _ => n_assign x (n_pop (nwalk_list body (n_push t)))
   | SWith binds body => n_pop (nwalk_list body (nvisit_binds binds (n_push t)))
   | SMacro nm ps ds body => n_assign nm (n_pop (nvisit_macro true ps ds body (n_push t)))
@@ -191,6 +198,8 @@ Proof.
   - apply Rpres_id.
   - apply Rpres_lookup.
   - apply (Rpres_fold (fun e t => visit_expr e t) (fun e t => nvisit e t) items H).
+  - apply (Rpres_fold (fun p t => visit_expr (snd p) (visit_expr (fst p) t)) (fun p t => nvisit (snd p) (nvisit (fst p) t)) pairs).
+    eapply Forall_impl; [|exact H]. intros p [Hk Hv]. apply (Rpres_comp _ _ _ _ Hk Hv).
   - auto.
   - auto.
   - apply (Rpres_comp _ _ _ _ IHe1 IHe2).
@@ -267,8 +276,8 @@ Qed.
 Lemma Rpres_visit_binds binds : Rpres (visit_binds binds) (nvisit_binds binds).
 Proof.
   unfold visit_binds, nvisit_binds.
-  apply (Rpres_fold (fun b t => t_assign (fst b) (visit_expr (snd b) t)) (fun b t => n_assign (fst b) (nvisit (snd b) t)) binds).
-  apply Forall_forall. intros b _. apply (Rpres_comp _ _ _ _ (Rpres_visit (snd b)) (Rpres_assign (fst b))).
+  apply (Rpres_fold (fun b t => assign_target (fst b) (visit_expr (snd b) t)) (fun b t => n_assign_target (fst b) (nvisit (snd b) t)) binds).
+  apply Forall_forall. intros b _. apply (Rpres_comp _ _ _ _ (Rpres_visit (snd b)) (Rpres_assign_target (fst b))).
 Qed.
 
 Lemma Rpres_visit_list l : Rpres (visit_list l) (nvisit_list l).
@@ -300,7 +309,7 @@ Proof.
                       (fun t6 => t_pop (match els with Some b => walk_list b (t_push t6) | None => t_push t6 end))
                       (fun t6 => n_pop (match els with Some b => nwalk_list b (n_push t6) | None => n_push t6 end))); [|exact P2].
     apply (Rpres_comp (visit_expr it) (nvisit it) (fun t => t_pop (inner (t_push t))) (fun t => n_pop (ninner (n_push t))) (Rpres_visit it) (Rpres_scoped _ _ P1)).
-  - apply (Rpres_comp _ _ _ _ (Rpres_visit e) (Rpres_assign x)).
+  - apply (Rpres_comp _ _ _ _ (Rpres_visit e) (Rpres_assign_target x)).
   - apply (Rpres_comp _ _ _ _ (Rpres_scoped_body body H) (Rpres_assign x)).
   - apply (Rpres_scoped (fun t => walk_list body (visit_binds binds t)) (fun t => nwalk_list body (nvisit_binds binds t))).
     apply (Rpres_comp _ _ _ _ (Rpres_visit_binds binds)). apply Rpres_walk_list; auto.
